@@ -1645,7 +1645,7 @@ func (s *Service) runPipeline(rp *runnablePipeline) error {
 						Str(log.PipelineIDField, rp.pipeline.ID).
 						Msg("pipeline recovery failed")
 
-					if updateErr := s.pipelines.UpdateStatus(ctx, rp.pipeline.ID, pipeline.StatusDegraded, fmt.Sprintf("%+v", recoveryErr)); updateErr != nil {
+					if updateErr := s.degradeIfCurrent(ctx, rp, recoveryErr); updateErr != nil {
 						return updateErr
 					}
 					// assign so it's the terminal error recorded and notified below.
@@ -1750,6 +1750,29 @@ func (s *Service) runPipeline(rp *runnablePipeline) error {
 		_ = rp.t.Wait()
 	}
 	return err
+}
+
+// degradeIfCurrent marks rp's pipeline as degraded after its recovery failed,
+// but only while rp is still the run published under its pipeline ID.
+//
+// If the entry is gone or belongs to another run, a run published since owns
+// the status: the run of the nested Start whose Running write failed has
+// already been finalized as Degraded by its own cleanup goroutine, which admits
+// a new Start, and an external Start may have replaced the entry during the
+// backoff. Writing Degraded from here would overwrite the Running status of
+// that new, live run: Stop then refuses it (status) and Start cannot replace
+// it ("connector is running").
+//
+// The compare and the write are made atomic against the publication in
+// runPipeline the same way the compare-and-delete is: under publishMu.
+func (s *Service) degradeIfCurrent(ctx context.Context, rp *runnablePipeline, cause error) error {
+	s.publishMu.Lock()
+	defer s.publishMu.Unlock()
+
+	if current, ok := s.runningPipelines.Get(rp.pipeline.ID); !ok || current != rp {
+		return nil
+	}
+	return s.pipelines.UpdateStatus(ctx, rp.pipeline.ID, pipeline.StatusDegraded, fmt.Sprintf("%+v", cause))
 }
 
 // recoverPipeline attempts to recover a pipeline that stopped with a transient
